@@ -17,6 +17,7 @@ struct StubExec final : yaclib::IExecutor {
     if (stopped) { ++drops; Run(job, false); return; }
     if (!deferred) { Run(job, true); return; }
     vp_assert(n < 4, "VP-BOUND: stub executor mailbox full");
+    vp_hb_sync_release(id);   // C04 ghost: a real executor's queue orders Submit before the job's execution
     box[n++] = &job;
   }
   void Run(yaclib::Job& job, bool call) noexcept {
@@ -29,6 +30,7 @@ struct StubExec final : yaclib::IExecutor {
     for (unsigned i = 0; i < 4 && i < n; ++i) {  // jobs submitted while draining are appended and run too
       yaclib::Job* j = box[i];
       box[i] = nullptr;
+      vp_hb_sync_acquire(id);
       Run(*j, true);
     }
     n = 0;
